@@ -378,3 +378,116 @@ func sameKeyValue(a, b ssa.Value) bool {
 	}
 	return false
 }
+
+// RunReuseKey: a value built by F(p, ...) that keeps the pointer p may only
+// be replaced by an earlier one when the two arguments are the same object:
+// choosing between "reuse" and "build" by comparing one field read through p
+// (with a field of another object) lets two different arguments share a
+// value that reads all of p's fields.
+func RunReuseKey(w *World, r *Report, fns []*ssa.Function) {
+	r.Rule("reusekey: where a phi chooses between a previously built value and a fresh call F(p, ...) whose result keeps p (stores it in the object it returns), the deciding condition must not be a comparison of a field loaded through p: equality of one field does not make the arguments interchangeable")
+	for _, fn := range fns {
+		if fn.Blocks == nil {
+			continue
+		}
+		for _, b := range fn.Blocks {
+			for _, in := range b.Instrs {
+				ph, ok := in.(*ssa.Phi)
+				if !ok {
+					break
+				}
+				var call *ssa.Call
+				var callPred *ssa.BasicBlock
+				other := false
+				for i, e := range ph.Edges {
+					if c, ok := e.(*ssa.Call); ok && c.Call.StaticCallee() != nil && c.Call.StaticCallee().Blocks != nil {
+						call, callPred = c, b.Preds[i]
+					} else {
+						other = true
+					}
+				}
+				if call == nil || !other {
+					continue
+				}
+				callee := call.Call.StaticCallee()
+				if os.Getenv("SFNT_MEMODEBUG") != "" {
+					fmt.Println("reusekey candidate", fnName(fn), fnName(callee))
+				}
+				var keptAll []ssa.Value
+				for ai, arg := range call.Call.Args {
+					if _, ok := arg.Type().Underlying().(*types.Pointer); !ok {
+						continue
+					}
+					if ai < len(callee.Params) && paramKeptInResult(callee, callee.Params[ai]) {
+						keptAll = append(keptAll, arg)
+					}
+				}
+				var kept ssa.Value
+				if len(keptAll) > 0 {
+					kept = keptAll[0]
+				}
+				if kept == nil {
+					if os.Getenv("SFNT_MEMODEBUG") != "" {
+						fmt.Println("   no kept param")
+					}
+					continue
+				}
+				key := r.MkKey("reusekey", fnName(fn), "reuse instead of "+fnName(callee))
+				// the condition under which the call is made
+				bad := ""
+				conds := guardsOf(callPred)
+				if len(callPred.Instrs) > 0 {
+					if ifi, ok := callPred.Instrs[len(callPred.Instrs)-1].(*ssa.If); ok {
+						conds = append(conds, guard{cond: ifi.Cond})
+					}
+				}
+				for _, g := range conds {
+					cmp, ok := g.cond.(*ssa.BinOp)
+					if !ok || (cmp.Op != token.EQL && cmp.Op != token.NEQ) {
+						continue
+					}
+					for _, side := range []ssa.Value{cmp.X, cmp.Y} {
+						if u, ok := side.(*ssa.UnOp); ok && u.Op == token.MUL {
+							isKept := false
+							if fa, ok := u.X.(*ssa.FieldAddr); ok {
+								for _, k := range keptAll {
+									if sameObject(fa.X, k) {
+										isKept = true
+									}
+								}
+							}
+							if fa, ok := u.X.(*ssa.FieldAddr); ok && isKept {
+								bad = "the choice is made by comparing the field " + fieldName(fa) + " read through the argument (" + w.Pos(cmp.Pos()) + ")"
+							}
+						}
+					}
+				}
+				if bad == "" {
+					r.OK("reusekey", key, w.Pos(ph.Pos()), "not decided by a field of the kept argument")
+				} else {
+					r.Fail("reusekey", key, w.Pos(call.Pos()), fnName(callee)+" keeps its argument in the value it returns, but "+bad+": two arguments that agree in that field and differ elsewhere get the same value", nil)
+				}
+			}
+		}
+	}
+}
+
+// sameObject: two pointer values denote the same object (same SSA value, or loads of the same address).
+func sameObject(a, b ssa.Value) bool {
+	if a == b {
+		return true
+	}
+	ua, ok1 := a.(*ssa.UnOp)
+	ub, ok2 := b.(*ssa.UnOp)
+	if ok1 && ok2 && ua.Op == token.MUL && ub.Op == token.MUL {
+		if ua.X == ub.X {
+			return true
+		}
+		fa, ok3 := ua.X.(*ssa.FieldAddr)
+		fb, ok4 := ub.X.(*ssa.FieldAddr)
+		if ok3 && ok4 && fa.Field == fb.Field && sameObject(fa.X, fb.X) {
+			return true
+		}
+	}
+	return false
+}
